@@ -19,6 +19,7 @@ import (
 	"verif/harness/c16"
 	"verif/harness/c17"
 	"verif/harness/c19"
+	"verif/harness/cpuenv"
 )
 
 type Entry func(args []int64)
@@ -35,6 +36,8 @@ func init() {
 	reg("c02", "Fresh", func(a []int64) { c02.Fresh(int(a[0])) })
 	reg("c02", "Copy", func(a []int64) { c02.Copy(int(a[0]), int(a[1])) })
 	reg("c01", "Step2", func(a []int64) { c01.Step2(int(a[0]), int(a[1]), int(a[2]), int(a[3]), int(a[4])) })
+	reg("c01", "Step3", func(a []int64) { c01.Step3(int(a[0]), int(a[1]), int(a[2]), int(a[3]), int(a[4]), int(a[5])) })
+	reg("c02", "Lockstep3", func(a []int64) { c02.Lockstep3(int(a[0]), int(a[1]), int(a[2]), int(a[3])) })
 	reg("c02", "Lockstep2", func(a []int64) { c02.Lockstep2(int(a[0]), int(a[1]), int(a[2])) })
 	reg("c02", "Lockstep", func(a []int64) { c02.Lockstep(int(a[0]), int(a[1])) })
 	reg("c06", "Program", func(a []int64) { c06.Program(a[0], int(a[1]), int(a[2]), int(a[3])) })
@@ -89,3 +92,6 @@ func init() {
 	reg("c17", "MulDivMonotoneDiv", func(a []int64) { c17.MulDivMonotoneDiv() })
 	reg("c17", "Luminosity", func(a []int64) { c17.Luminosity() })
 }
+
+// ResetState is called by the native replayer before every job.
+func ResetState() { cpuenv.Rebuild() }
